@@ -9,6 +9,7 @@ import PlatypusModel.Model.Sorting
 import PlatypusModel.Model.Grid
 import PlatypusModel.Model.Run
 import PlatypusModel.Model.Survival
+import PlatypusModel.Model.SPEA2
 import PlatypusModel.Model.Machine
 import PlatypusModel.Model.Parallel
 import PlatypusModel.Model.Indicators
@@ -246,6 +247,11 @@ def opsSurvival (op : String) : Option (P String) :=
   | "nsga2" => some do
       let c ← bool; let dirs ← list bool; let n ← nat; let merged ← list solF
       pure ("v " ++ showNats (nsga2Survival c dirs merged n))
+  | "spea2" => some do
+      let c ← bool; let dirs ← list bool; let n ← nat; let k ← nat; let merged ← list solF
+      pure (match spea2Survival c dirs k merged n with
+        | some ids => "v " ++ showNats ids
+        | none => "err:index")
   | "gde3" => some do
       let c ← bool; let dirs ← list bool; let n ← nat; let off ← list solF; let pop ← list solF
       pure ("v " ++ showNats (gde3Survival c dirs off pop n))
